@@ -43,6 +43,20 @@ def gen_cases(seed, n):
             q = {"distinct": False, "star": True, "proj": [], "from": [], "fromnamed": [], "group": [], "order": [], "limit": -1,
                  "p": {"t": "join", "ps": [{"t": "bgp", "tps": [[V("a"), V("b"), V("c")]]}, {"t": "bgp", "tps": [[V("d"), G.C(rng.choice(G.P_IRI)), V("e")]]},
                                            {"t": "bgp", "tps": [[V("a"), V("h"), V("f")]]}]}}
+        if i % 15 == 7:
+            # a sub-SELECT ordered by a variable it does not project, cut by LIMIT: distinct sort keys make the cut definite
+            quads = [x for x in quads if not (x[1] == G.P_VAL and x[3] == "")]
+            vals = rng.sample(G.INTS, 4)
+            quads += [(G.IRIS[k], G.P_VAL, vals[k], "") for k in range(4)]
+            quads = sorted(set(quads))
+            V, C = G.V, G.C
+            inner = {"distinct": False, "star": False, "proj": [{"k": "VAR", "v": "a", "as": "a"}], "from": [], "fromnamed": [], "group": [],
+                     "p": {"t": "join", "ps": [{"t": "bgp", "tps": [[V("a"), C(G.P_VAL), V("b")]]}]},
+                     "order": [{"v": "b", "d": rng.choice(["asc", "desc"])}], "limit": rng.choice([1, 2, 3])}
+            ps = [{"t": "sub", "q": inner}]
+            if rng.random() < 0.5:
+                ps.append({"t": "bgp", "tps": [[V("a"), V("c"), V("d")]]})
+            q = {"distinct": False, "star": True, "proj": [], "from": [], "fromnamed": [], "group": [], "order": [], "limit": -1, "p": {"t": "join", "ps": ps}}
         text = G.pr_select(q)
         # the dataset is the result of a history: some quads (sharing terms with the kept ones) are inserted and deleted again
         junk = []
